@@ -19,6 +19,11 @@ pub(super) fn parse(bytes: &[u8]) -> Result<TimeZone, Error> {
         },
         Version::V2 | Version::V3 => {
             let state = State::new(&mut cursor, false)?;
+            // The second data block always holds 64-bit times; a header that claims version 1
+            // here would make `parse_time` read them as 32-bit values.
+            if state.header.version == Version::V1 {
+                return Err(Error::InvalidTzFile("TZif v1 header before the 64-bit data block"));
+            }
             (state, Some(cursor.remaining()))
         }
     };
